@@ -28,7 +28,7 @@ def body(ctx):
 
 def check(ctx):
     ctx.assumptions = [
-        "the documented exceptions are not exercised: `comments_count` of empty_if / empty_loop keeps its default (false), programs containing filter comments are skipped, inserted comments never spell `selene:`",
+        "the documented exceptions are not exercised: `comments_count` of empty_if / empty_loop keeps its default (false), programs containing filter comments are skipped, inserted comments are never filters (one in six merely looks like one: `--- selene: allow(…)` with an extra dash, an ordinary comment)",
         "layout-independence of the one unmodelled lint (roblox_incorrect_roact_usage) rests on the twin runs only; for the modelled lints the Lean theorem states it and the correspondence of C01-C06 ties the model to the code",
         "line-sensitive lints (multiple_statements) are covered because rewrites never join or split lines",
     ]
